@@ -192,6 +192,8 @@ def run(ctx):
             stext = matrix.read(srcinfo[1])
             if "@{exec_path}" not in preamble_of(stext):
                 continue
+            if worker.timed_out(ctx, rep):
+                continue
             if "ok" not in rep:
                 agg.setdefault("C06/exec-error/%s" % t, []).append((b.cfg.id, "#aa:exec %s failed: %r" % (t, rep.get("error") or rep.get("panic"))))
                 continue
@@ -314,6 +316,8 @@ def drifting_variables(ctx, b, judge):
     reps = worker.run_isolating(ctx, "prebuild", reqs, lambda r, e: None, extra_env={"DISTRIBUTION": b.cfg.dist}, timeout=300)[1:]
     out = set()
     for v, rep in zip(names, reps):
+        if worker.timed_out(ctx, rep):
+            continue
         if "ok" not in rep:
             out.add(v)
             continue
@@ -335,6 +339,8 @@ def generated(ctx, b, judge, agg):
     reps = worker.run_isolating(ctx, "prebuild", reqs, lambda r, e: None, extra_env={"DISTRIBUTION": b.cfg.dist}, timeout=900)[1:]
     jobs = []
     for (name, text, drift), rep in zip(cases, reps):
+        if worker.timed_out(ctx, rep):
+            continue
         if "ok" not in rep:
             agg.setdefault("C06/generated/builder-error", []).append((b.cfg.id, "userspace builder failed on a generated preamble: %r" % (rep.get("error") or rep.get("panic") or rep,)))
             ctx.case(digest(text))
